@@ -14,7 +14,7 @@ Notation Inv := (Inv H).
 Notation step := (step H).
 Notation run := (run H).
 
-Definition sync_cycle (nv : nat) : list op := [OSyncStart] ++ repeat OSyncV nv ++ [OSyncTx; OSyncC].
+Definition sync_cycle (nv : nat) : list op := [OSyncStart] ++ map OSyncV (seq 0 nv) ++ [OSyncTx; OSyncC].
 
 Lemma run_app s a b : run s (a ++ b) = (do s1 <- run s a; run s1 b).
 Proof.
@@ -35,25 +35,34 @@ Proof. unfold same_core. repeat split; auto. Qed.
 Lemma same_core_trans a b c : same_core a b -> same_core b c -> same_core a c.
 Proof. unfold same_core. intros. intuition congruence. Qed.
 
-Lemma syncv_loop nv m : forall s h d i,
-  Inv nv s h d -> phase_ s = PV i -> (i + m = nv)%nat ->
-  exists s', run s (repeat OSyncV m) = Ok s' /\ Inv nv s' h d /\ phase_ s' = PV nv /\ same_core s s'.
+Lemma syncv_loop nv m : forall s h d i done,
+  Inv nv s h d -> phase_ s = PV done -> length done = i -> Forall (fun v => (v < i)%nat) done ->
+  (i + m = nv)%nat ->
+  exists s' done', run s (map OSyncV (seq i m)) = Ok s' /\ Inv nv s' h d /\ phase_ s' = PV done' /\
+                   length done' = nv /\ same_core s s'.
 Proof.
-  induction m as [|m IH]; intros s h d i I Ep Hi.
-  - exists s. cbn [repeat Protocol.run]. assert (i = nv) by lia. subst i.
-    split; [reflexivity|]. split; [exact I|]. split; [exact Ep|apply same_core_refl].
-  - cbn [repeat Protocol.run].
+  induction m as [|m IH]; intros s h d i done I Ep Hl Hf Hi.
+  - exists s, done. cbn [seq map Protocol.run].
+    split; [reflexivity|]. split; [exact I|]. split; [exact Ep|]. split; [lia|apply same_core_refl].
+  - cbn [seq map Protocol.run].
     assert (Hlt: (i < length (vls s))%nat) by (rewrite (v_nv _ _ _ _ _ I); lia).
     destruct (nth_error (vls s) i) as [g|] eqn:En; [|apply nth_error_None in En; lia].
-    assert (E1: step s OSyncV = Ok (mkSt (s_cfg s) (txl s) (cml s) (set_nth (vls s) i (f_sync g)) (ahd s) (ahc s)
-                 (committed s) (calh s) (pbuf s) (palh s) (pts s) (acked s) (PV (S i)) (inflight s)
+    assert (Ex: existsb (Nat.eqb i) done = false).
+    { destruct (existsb (Nat.eqb i) done) eqn:Ex; [|reflexivity].
+      apply existsb_exists in Ex as (x & Hx & Ex). apply Nat.eqb_eq in Ex. subst x.
+      rewrite Forall_forall in Hf. specialize (Hf i Hx). lia. }
+    assert (E1: step s (OSyncV i) = Ok (mkSt (s_cfg s) (txl s) (cml s) (set_nth (vls s) i (f_sync g)) (ahd s) (ahc s)
+                 (committed s) (calh s) (pbuf s) (palh s) (pts s) (acked s) (PV (i :: done)) (inflight s)
                  (asize s) (alatest s) (acnt s))).
-    { unfold Protocol.step. rewrite Ep, En. reflexivity. }
+    { unfold Protocol.step. rewrite Ep, Ex, En. reflexivity. }
     rewrite E1. cbn [bind].
-    pose proof (step_OSyncV H _ _ _ _ _ I E1) as I1.
-    destruct (IH _ h d (S i) I1 eq_refl ltac:(lia)) as (s' & R & I' & P' & C').
-    exists s'. split; [exact R|]. split; [exact I'|]. split; [exact P'|].
-    eapply same_core_trans; [|exact C']. unfold same_core. cbn. rewrite length_set_nth. repeat split; auto.
+    pose proof (step_OSyncV H _ _ _ _ _ _ I E1) as I1.
+    destruct (IH _ h d (S i) (i :: done) I1 eq_refl) as (s' & done' & R & I' & P' & L' & C').
+    + cbn [length]. lia.
+    + constructor; [lia|]. eapply Forall_impl; [|exact Hf]. cbn. intros; lia.
+    + lia.
+    + exists s', done'. split; [exact R|]. split; [exact I'|]. split; [exact P'|]. split; [exact L'|].
+      eapply same_core_trans; [|exact C']. unfold same_core. cbn. rewrite length_set_nth. repeat split; auto.
 Qed.
 
 Lemma precommitted_core s s' : committed s' = committed s -> pbuf s' = pbuf s -> precommitted s' = precommitted s.
@@ -70,14 +79,14 @@ Proof.
   intros I Ep Hlt. unfold sync_cycle. rewrite run_app. cbn [Protocol.run].
   (* OSyncStart *)
   assert (E1: step s OSyncStart = Ok (mkSt (s_cfg s) (txl s) (cml s) (vls s) (ahd s) (ahc s) (committed s) (calh s)
-               (pbuf s) (palh s) (pts s) (acked s) (PV 0) (inflight s) (asize s) (alatest s) (acnt s))).
+               (pbuf s) (palh s) (pts s) (acked s) (PV []) (inflight s) (asize s) (alatest s) (acnt s))).
   { unfold Protocol.step. rewrite Ep. cbn [phase_idle andb].
     destruct (N.eqb_spec (precommitted s) (committed s)); [lia|]. reflexivity. }
   rewrite E1. cbn [bind].
   pose proof (step_OSyncStart H _ _ _ _ _ I E1) as I1.
-  set (s1 := mkSt _ _ _ _ _ _ _ _ _ _ _ _ (PV 0) _ _ _ _) in *.
+  set (s1 := mkSt _ _ _ _ _ _ _ _ _ _ _ _ (PV []) _ _ _ _) in *.
   rewrite run_app.
-  destruct (syncv_loop nv nv s1 h d 0%nat I1 eq_refl ltac:(lia)) as (s2 & R2 & I2 & P2 & C2).
+  destruct (syncv_loop nv nv s1 h d 0%nat [] I1 eq_refl eq_refl ltac:(constructor) ltac:(lia)) as (s2 & done2 & R2 & I2 & P2 & L2 & C2).
   rewrite R2. cbn [bind Protocol.run].
   destruct C2 as (K1 & K2 & K3 & K4 & K5 & K6 & K7 & K8 & K9 & K10 & K11 & K12 & K13 & K14 & K15).
   cbn [s1 s_cfg txl cml ahd ahc committed pbuf palh pts acked inflight asize alatest acnt vls] in *.
@@ -89,12 +98,18 @@ Proof.
     destruct (N.ltb_spec (44 * committed s2 + 0) (44 * committed s2)); [lia|].
     destruct (44 * committed s2 <=? 44 * committed s2); eauto. }
   destruct Es as (c1 & Es).
+  assert (Ea: exists a, (if c_ahtsync (s_cfg s2) then aht_sync (aht_of s2) else Ok (aht_of s2)) = Ok a /\
+                        a_size a = asize s2).
+  { destruct (v_aht _ _ _ _ _ I2) as (IA & _). destruct (c_ahtsync (s_cfg s2)).
+    - destruct (aht_sync_AInv _ _ IA) as (a' & Ea' & _ & Sz & _). exists a'. split; [exact Ea'|exact Sz].
+    - exists (aht_of s2). split; reflexivity. }
+  destruct Ea as (a & Ea & Sza).
   assert (E3: step s2 OSyncTx = Ok (mkSt (s_cfg s2) (f_sync (txl s2)) (f_append c1 (pbuf_entries (pbuf s2))) (vls s2)
-               (ahd s2) (ahc s2) (committed s2) (calh s2) (pbuf s2) (palh s2) (pts s2) (acked s2)
-               (PC (precommitted s2)) (inflight s2) (asize s2) (alatest s2) (acnt s2))).
-  { unfold Protocol.step. rewrite P2, Inv2, Nat.eqb_refl. cbn [negb]. rewrite Es. reflexivity. }
+               (a_d a) (a_c a) (committed s2) (calh s2) (pbuf s2) (palh s2) (pts s2) (acked s2)
+               (PC (precommitted s2)) (inflight s2) (a_size a) (a_latest a) (a_cnt a))).
+  { unfold Protocol.step. rewrite P2, L2, Inv2, Nat.eqb_refl. cbn [negb]. rewrite Ea. cbn [bind]. rewrite Es. reflexivity. }
   rewrite E3. cbn [bind].
-  pose proof (step_OSyncTx H H_len _ _ _ _ _ I2 E3) as I3.
+  pose proof (proj1 (step_OSyncTx H H_len _ _ _ _ _ I2 E3)) as I3.
   set (s3 := mkSt _ _ _ _ _ _ _ _ _ _ _ _ (PC _) _ _ _ _) in *.
   (* OSyncC *)
   assert (E4: step s3 OSyncC = Ok (mkSt (s_cfg s3) (txl s3) (f_sync (cml s3)) (vls s3) (ahd s3) (ahc s3)
@@ -220,7 +235,7 @@ Theorem backlog_is_committed c nv s :
     committed s' = precommitted s /\ acked s' = precommitted s /\ precommitted s' = precommitted s /\
     phase_ s' = PIdle /\ asize s' = asize s.
 Proof.
-  intros Hp Ht R Ep Hlt. destruct (reach_Inv H H_len _ _ _ Hp Ht R) as (_ & h & d & I).
+  intros Hp Ht R Ep Hlt. destruct (reach_Inv H H_len _ _ _ Hp Ht R) as (_ & h & d & I & _).
   destruct (sync_cycle_ok nv s h d I Ep Hlt) as (s' & E & _ & F1 & F2 & F3 & F4 & F5 & _).
   exists s'. split; [exact E|]. split; [eapply reach_run; eauto|]. auto.
 Qed.
@@ -238,7 +253,7 @@ Theorem accepts_new_commits c nv s dd payload f0 :
       Some (enc_rec H (precommitted s + 1) (palh s) (enc_vref 0 (f_offset f0) (len dd) (H dd) ++ payload)).
 Proof.
   intros Hp Ht R Ep Has Hact Ef G1 G2 G3 G4 G5.
-  destruct (reach_Inv H H_len _ _ _ Hp Ht R) as (Ec & h & d & I).
+  destruct (reach_Inv H H_len _ _ _ Hp Ht R) as (Ec & h & d & I & _).
   rewrite <- Ec in Hact.
   destruct (commit_ok nv s h d dd payload f0 I Ep Has Hact Ef G1 G2 G3 G4 G5)
     as (s' & h' & d' & E & _ & F1 & _ & _ & F4 & F5 & F6).
@@ -248,13 +263,13 @@ Qed.
 (* ================= crash during recovery ================= *)
 Lemma recover_core upto c im s :
   recover_upto H upto c im = Ok s ->
-  recover_logs H c (i_txl im) (i_cml im) = Ok (committed s, calh s, pbuf s, palh s, pts s) /\
+  recover_logs H c (i_txl im) (i_cml im) (i_vls im) = Ok (committed s, calh s, pbuf s, palh s, pts s) /\
   txl s = f_open (i_txl im) /\ vls s = map f_open (i_vls im) /\
   cml s = (if c_prealloc c then f_open (i_cml im) else open_trim (i_cml im) 44) /\
   acked s = committed s /\ phase_ s = PIdle /\ inflight s = [] /\ s_cfg s = c.
 Proof.
   unfold recover_upto. intros E.
-  destruct (recover_logs H c (i_txl im) (i_cml im)) as [[[[[cid ca] pb] pa] ptls]| |]; cbn [bind] in E; try discriminate.
+  destruct (recover_logs H c (i_txl im) (i_cml im) (i_vls im)) as [[[[[cid ca] pb] pa] ptls]| |]; cbn [bind] in E; try discriminate.
   destruct ((0 <? len (i_ahc im) / 12) && (len (i_ahd im) <? 32 * (len (i_ahc im) / 12))); [discriminate|].
   apply bind_ok in E as (a1 & _ & E). apply bind_ok in E as (a2 & _ & E).
   assert (Q: forall a b, @Ok st a = Ok b -> a = b) by (intros ? ? Q; congruence).
@@ -296,12 +311,12 @@ Proof.
   { destruct (open_trim_spec H H_len (i_cml im) 44 ltac:(lia)) as (O1 & O2 & _).
     rewrite <- O1. apply crash_image_nopending; auto. }
   split; [exact Etx|]. split; [exact Ecm|]. split; [exact Evl|].
-  destruct (crash_safety_logs H H_len c nv s1 im' Hp Ht R1 Cr2) as (s2 & E2 & _ & _ & A2 & P2 & S2 & _).
-  destruct (crash_safety_logs H H_len c nv s im Hp Ht R Cr) as (sf & Ef & _ & _ & Af & Pf & Sf & _).
+  destruct (crash_safety H H_len c nv s1 im' Hp Ht R1 Cr2) as (s2 & E2 & _ & _ & A2 & P2 & S2 & _).
+  destruct (crash_safety H H_len c nv s im Hp Ht R Cr) as (sf & Ef & _ & _ & Af & Pf & Sf & _).
   exists s2, sf. split; [exact E2|]. split; [exact Ef|].
   destruct (recover_core _ _ _ _ E2) as (L2 & T2 & V2 & C2 & K2 & _).
   destruct (recover_core _ _ _ _ Ef) as (Lf & Tf & Vf & Cf & Kf & _).
-  rewrite Etx, Ecm in L2. rewrite L2 in Lf.
+  rewrite Etx, Ecm, Evl in L2. rewrite L2 in Lf.
   assert (Q: (committed s2, calh s2, pbuf s2, palh s2, pts s2) = (committed sf, calh sf, pbuf sf, palh sf, pts sf)) by congruence.
   assert (committed s2 = committed sf) by congruence.
   assert (calh s2 = calh sf) by congruence. assert (pbuf s2 = pbuf sf) by congruence.
